@@ -68,7 +68,7 @@ def cases(rng, quick):
         add(lambda i, conds=conds: g.call('switch', *[g.pair(i.e(c(x)), i.e(c(10 + k))) for k, x in enumerate(conds)]), note='switch')
         add(lambda i, conds=conds: g.call('selectCase', *[i.e(c(x)) for x in conds]), note='selectCase')
         add(lambda i, conds=conds: g.call('coalesce', *[i.e(c(None if not x else x)) for x in conds]), note='coalesce')
-    for n in (-1, 0, 1, 2, 3, 5):
+    for n in (-4, -3, -2, -1, 0, 1, 2, 3, 5):
         add(lambda i, n=n: g.mcall(i.e(c(n)), 'switchCase', i.e(c('a')), i.e(c('b')), i.e(c('c'))), note='switchCase')
         add(lambda i, n=n: g.mcall(g.call('selectCase', i.e(c(n > 1)), i.e(c(n > 0))), 'switchCase', i.e(c('a')), i.e(c('b')), i.e(c('c'))))
     # eager arguments of library functions: once each, left to right, positional then keyword; many overloads share them
@@ -113,6 +113,13 @@ def cases(rng, quick):
         add(lambda i: g.mcall(i.e(X), 'groupBy', i.l(g.bn('mod', X, c(2)))), d)
         add(lambda i: g.mcall(i.e(X), 'groupBy', i.l(g.bn('mod', X, c(2))), i.l(g.bn('+', X, c(1)))), d, 'groupBy-value-then-key')
         add(lambda i: g.mcall(i.e(X), 'toDict', i.l(X), i.l(g.bn('*', X, c(2)))), d)
+        # lambdas passed by their (multi-word, convention-translated) keyword stay lazy
+        add(lambda i: g.mcall(i.e(X), 'toDict', keySelector=i.l(X), valueSelector=i.l(g.bn('*', X, c(2)))), d, 'keyword-lambda')
+        add(lambda i: g.mcall(i.e(X), 'toDict', i.l(X), valueSelector=i.l(g.bn('*', X, c(2)))), d, 'keyword-lambda')
+        add(lambda i: g.mcall(i.e(X), 'groupBy', keySelector=i.l(g.bn('mod', X, c(2))), valueSelector=i.l(g.bn('+', X, c(1)))), d, 'keyword-lambda')
+        add(lambda i: g.mcall(i.e(X), 'distinct', keySelector=i.l(g.bn('mod', X, c(2)))), d, 'keyword-lambda')
+        add(lambda i: g.mcall(i.e(X), 'where', predicate=g.bn('>', i.l(X), c(1))), d, 'keyword-lambda')
+        add(lambda i: g.mcall(i.e(X), 'select', selector=i.l(X)), d, 'keyword-lambda')
         add(lambda i: g.mcall(i.e(X), 'aggregate', i.l(g.bn('+', g.var('1'), g.var('2'))), i.e(c(0))), d)
         add(lambda i: g.mcall(i.e(X), 'accumulate', i.l(g.bn('+', g.var('1'), g.var('2'))), i.e(c(0))), d)
         add(lambda i: g.mcall(i.e(X), 'splitWhere', g.bn('=', i.l(X), c(1))), d)
